@@ -296,6 +296,11 @@ func c15CheckCBOR(s shape, fresh func() any, plainComparable bool) string {
 	if err != nil {
 		return "SerializeStructToCBOR failed: " + err.Error()
 	}
+	outSnap := string(out)
+	otherTrafficEvery(2)
+	if string(out) != outSnap {
+		return "the bytes returned by SerializeStructToCBOR changed while unrelated encodes / decodes ran"
+	}
 	out2, err := encoding.SerializeStructToCBOR(hem, s)
 	if err != nil || !bytes.Equal(out, out2) {
 		return fmt.Sprintf("serialising twice gives different bytes: %x vs %x", out, out2)
@@ -403,6 +408,11 @@ func c15CheckJSON(s shape, fresh func() any, plainComparable bool) string {
 	out, err := encoding.SerializeStructToJSON(s)
 	if err != nil {
 		return "SerializeStructToJSON failed: " + err.Error()
+	}
+	outSnap := string(out)
+	otherTrafficEvery(2)
+	if string(out) != outSnap {
+		return "the bytes returned by SerializeStructToJSON changed while unrelated encodes / decodes ran"
 	}
 	out2, err := encoding.SerializeStructToJSON(s)
 	if err != nil || !bytes.Equal(out, out2) {
